@@ -205,6 +205,7 @@ func genSeqCase(rng *rand.Rand, domain bool) hx.Case {
 		probe = "lg probeall 3"
 	}
 	hasWF, hasLvl, hasNew := false, false, false
+	probeMode := rng.Intn(3)
 	for i := 0; i < n; i++ {
 		// prefer recent contexts, but reach all of them
 		c := rng.Intn(nctx)
@@ -236,6 +237,19 @@ func genSeqCase(rng *rand.Rand, domain bool) hx.Case {
 			hasLvl = true
 		}
 		nctx++
+		// observation points: after every step, only at the end, or sparsely.  A logger that
+		// materialises pending state when it emits an entry behaves differently when nothing is
+		// logged between two calls, so the probes must not always sit between them.
+		switch probeMode {
+		case 0:
+			lines = append(lines, probe)
+		case 2:
+			if rng.Intn(4) == 0 {
+				lines = append(lines, probe)
+			}
+		}
+	}
+	if probeMode != 0 && lines[len(lines)-1] != probe {
 		lines = append(lines, probe)
 	}
 	tags := []string{"seq"}
@@ -255,7 +269,28 @@ func shapedSeqCases() []hx.Case {
 		}
 		return hx.Case{Lines: lines, Domain: true, Nontrivial: true, Tags: []string{"seq-shaped", tag}}
 	}
-	return []hx.Case{
+	// the same shapes observed only at the end (nothing is logged between the calls)
+	mkEnd := func(tag string, ops ...string) hx.Case {
+		lines := []string{"case lg seq", "lg start seq cur 1 g:0"}
+		for _, o := range ops {
+			lines = append(lines, "lg "+o)
+		}
+		lines = append(lines, "lg probeall 2")
+		return hx.Case{Lines: lines, Domain: true, Nontrivial: true, Tags: []string{"seq-shaped", "end-only", tag}}
+	}
+	both := func(tag string, ops ...string) []hx.Case { return []hx.Case{mk(tag, ops...), mkEnd(tag, ops...)} }
+	var extra []hx.Case
+	extra = append(extra, both("fields-then-level", "init 0 a:1", "wf 1 b:2", "sl 1 -1")...)
+	extra = append(extra, both("fields-then-debug-shared", "init 0 a:1", "derive 1", "wf 2 b:2 c:3", "dbg 1", "derive 2")...)
+	extra = append(extra, both("fields-level-fields", "init 0", "wf 1 a:1", "sl 1 2", "wf 1 b:1", "sl 1 -1", "wf 1 c:1")...)
+	extra = append(extra, both("child-after-fields-level", "init 0 a:1", "wf 1 b:1", "sl 1 0", "child 1 c:1", "wf 4 d:1", "wf 1 e:1")...)
+	extra = append(extra, both("bare-fields-level", "wf 0 a:1", "sl 1 -1", "wf 2 b:1")...)
+	extra = append(extra,
+		mkEnd("level-then-fields", "init 0 a:1", "sl 1 -1", "wf 1 b:2"),
+		mkEnd("child-isolated", "init 0 a:1", "child 1 b:1", "wf 2 c:1", "sl 2 -1", "wf 1 d:1", "sl 1 2", "init 2 e:1", "wf 7 f:1"),
+		mkEnd("siblings", "init 0", "sl 1 -1", "wf 1 a:1", "wf 1 b:1", "wf 1 c:1", "child 1 d:1", "child 1 e:1", "wf 1 f:1", "wf 6 a:2", "wf 7 b:2"),
+		mk("siblings", "init 0", "sl 1 -1", "wf 1 a:1", "wf 1 b:1", "wf 1 c:1", "child 1 d:1", "child 1 e:1", "wf 1 f:1", "wf 6 a:2", "wf 7 b:2"))
+	return append(extra, []hx.Case{
 		mk("level-then-fields", "init 0 a:1", "sl 1 -1", "wf 1 b:2"),
 		mk("debug-then-fields", "init 0 a:1", "dbg 1", "wf 1 b:2", "wf 1"),
 		mk("level-then-child", "init 0", "sl 1 0", "child 1 c:1", "child 1", "wf 3 d:1"),
@@ -265,5 +300,5 @@ func shapedSeqCases() []hx.Case {
 		mk("shared-by-derived", "init 0 a:1", "derive 1", "derive 2", "wf 3 b:1", "sl 2 -1", "wf 1 c:1"),
 		mk("child-isolated", "init 0 a:1", "child 1 b:1", "wf 2 c:1", "sl 2 -1", "wf 1 d:1", "sl 1 2", "init 2 e:1", "wf 7 f:1"),
 		mk("empty-with", "init 0", "sl 1 -1", "wf 1", "child 1", "wf 1 a:1"),
-	}
+	}...)
 }
